@@ -42,11 +42,31 @@ def pushSpecs (allow : Bool) : Node → List Str
 def target (w : World) (s : Str) (src : Option Loc) : Option Loc :=
   w.resolve (handlerFor w s) s src
 
-/-- locations reachable from the roots through folder name matching and include directives -/
+/-- locations reachable **as the loader computes it**: every pushed specification — an include line, but also
+    the bare NAME of a matching folder entry (`LoadItem(specification=p.name, source=folder)`) — is resolved as
+    a specification relative to where it was found -/
+inductive ReachSpec (w : World) (allow : Bool) (roots : List Str) : Loc → Prop
+  | root {s l} : s ∈ roots → target w s none = some l → ReachSpec w allow roots l
+  | step {l node s l'} : ReachSpec w allow roots l → lookupNode w l = some node → s ∈ pushSpecs allow node →
+      target w s (some l) = some l' → ReachSpec w allow roots l'
+
+/-- locations reachable from the roots **through folder name matching and include directives** — what the
+    property says: a matching entry of a reachable folder is reachable *itself* (`World.childLoc`, the entry
+    `folder / name`), an include line leads where it resolves to -/
 inductive Reach (w : World) (allow : Bool) (roots : List Str) : Loc → Prop
   | root {s l} : s ∈ roots → target w s none = some l → Reach w allow roots l
-  | step {l node s l'} : Reach w allow roots l → lookupNode w l = some node → s ∈ pushSpecs allow node →
-      target w s (some l) = some l' → Reach w allow roots l'
+  | entry {l ch name l'} : Reach w allow roots l → lookupNode w l = some (.folder ch) → (name, true) ∈ ch →
+      w.childLoc l name = some l' → Reach w allow roots l'
+  | directive {l sheets s l'} : Reach w allow roots l → lookupNode w l = some (.file sheets) →
+      s ∈ pushSpecs allow (.file sheets) → target w s (some l) = some l' → Reach w allow roots l'
+
+/-- no folder entry's name is specification-like *in effect*: every matching entry of every folder, re-read as
+    a specification found in that folder, resolves to the entry itself.  (False for entries named `\\x.csv`,
+    `file:x.csv`, `FILE:x.csv`, `<registered protocol>:x.csv` — known finding F4.)  Decidable on the world. -/
+def entriesFaithful (w : World) : Bool :=
+  w.nodes.all fun p => match p.2 with
+    | .folder ch => ch.all fun c => !c.2 || target w c.1 (some p.1) == w.childLoc p.1 c.1
+    | _ => true
 
 /-- the blocks a read of location `l` yields: the blocks of the sheets that are read, in file order, minus the
     include directives when includes are honoured -/
@@ -736,18 +756,18 @@ theorem no_include_pushes_when_off (sheets : List Sheet) : Spec.pushSpecs false 
 /-- an item on the work-list was put there by a root or by the read of a reachable location -/
 def ItemOK (w : World) (allow : Bool) (roots : List Str) (it : Item) : Prop :=
   (it.srcLoc = none ∧ it.spec ∈ roots) ∨
-  (∃ l node, it.srcLoc = some l ∧ Spec.Reach w allow roots l ∧ lookupNode w l = some node ∧
+  (∃ l node, it.srcLoc = some l ∧ Spec.ReachSpec w allow roots l ∧ lookupNode w l = some node ∧
     it.spec ∈ Spec.pushSpecs allow node)
 
 theorem itemOK_reach (w : World) (allow : Bool) (roots : List Str) (it : Item) (l : Loc)
-    (h : ItemOK w allow roots it) (hr : resolveItem w it = some l) : Spec.Reach w allow roots l := by
+    (h : ItemOK w allow roots it) (hr : resolveItem w it = some l) : Spec.ReachSpec w allow roots l := by
   rw [resolveItem_eq] at hr
   rcases h with ⟨h1, h2⟩ | ⟨l0, node, h1, h2, h3, h4⟩
   · rw [h1] at hr; exact .root h2 hr
   · rw [h1] at hr; exact .step h2 h3 h4 hr
 
 theorem pushes_itemOK (w : World) (allow : Bool) (roots : List Str) (l : Loc) (it : Item) (node : Node)
-    (hl : Spec.Reach w allow roots l) (hn : lookupNode w l = some node) :
+    (hl : Spec.ReachSpec w allow roots l) (hn : lookupNode w l = some node) :
     ∀ x ∈ nodePushes allow l it node, ItemOK w allow roots x := by
   intro x hx
   refine Or.inr ⟨l, node, nodePushes_src allow l it node x hx, hl, hn, ?_⟩
@@ -755,7 +775,7 @@ theorem pushes_itemOK (w : World) (allow : Bool) (roots : List Str) (l : Loc) (i
   exact List.mem_map_of_mem hx
 
 structure SoundInv (w : World) (allow : Bool) (roots : List Str) (st : LSt) : Prop where
-  vis : ∀ l ∈ st.visited, Spec.Reach w allow roots l
+  vis : ∀ l ∈ st.visited, Spec.ReachSpec w allow roots l
   stk : ∀ it ∈ st.stack, ItemOK w allow roots it
 
 theorem soundInv_final (w : World) (cfg : Cfg) (roots : List Str) :
@@ -797,8 +817,8 @@ theorem soundInv_final (w : World) (cfg : Cfg) (roots : List Str) :
 
 /-- **reads_sound**: nothing outside the reachable set is ever read — in every run, completed or not.
     (Reachability is taken in `effWorld`: through the blocks a read under this tracker gets through.) -/
-theorem reads_sound (w : World) (cfg : Cfg) (roots : List Str) :
-    ∀ l ∈ (loadFiles w cfg roots).1.visited, Spec.Reach (effWorld cfg.raising w) cfg.allowInclude roots l :=
+theorem reads_sound_spec (w : World) (cfg : Cfg) (roots : List Str) :
+    ∀ l ∈ (loadFiles w cfg roots).1.visited, Spec.ReachSpec (effWorld cfg.raising w) cfg.allowInclude roots l :=
   (soundInv_final w cfg roots).vis
 
 /-- a request (specification found at `src`) is still pending or has been answered by a read -/
@@ -875,11 +895,11 @@ theorem closedInv_init (w : World) (allow : Bool) (roots : List Str) :
 
 /-- **reads_reachable**: a load that runs to completion has read exactly the locations reachable from the
     roots through folder name matching and include directives -/
-theorem reads_reachable (w : World) (cfg : Cfg) (roots : List Str)
+theorem reads_reachable_spec (w : World) (cfg : Cfg) (roots : List Str)
     (hd : (loadFiles w cfg roots).2 = .done) (l : Loc) :
-    l ∈ (loadFiles w cfg roots).1.visited ↔ Spec.Reach (effWorld cfg.raising w) cfg.allowInclude roots l := by
+    l ∈ (loadFiles w cfg roots).1.visited ↔ Spec.ReachSpec (effWorld cfg.raising w) cfg.allowInclude roots l := by
   constructor
-  · exact reads_sound w cfg roots l
+  · exact reads_sound_spec w cfg roots l
   · intro hreach
     obtain ⟨hinv, hempty⟩ := run_done w cfg (ClosedInv (effWorld cfg.raising w) cfg.allowInclude roots)
       (fun st st' h hc => closedInv_running w cfg roots st st' h hc) _ _
@@ -895,6 +915,93 @@ theorem reads_reachable (w : World) (cfg : Cfg) (roots : List Str)
     induction hreach with
     | root hs ht => exact served_vis _ _ _ (hinv.roots _ hs) ht
     | step _ hn hs ht ih => exact served_vis _ _ _ (hinv.edges _ ih _ hn _ hs) ht
+
+/-! ### … and what that means for the reachability the property speaks of
+
+  Full-strength statement (NOT a theorem — `reads_reachable_fails` below is a world where it is false):
+
+      theorem reads_reachable (w cfg roots) (hd : (loadFiles w cfg roots).2 = .done) (l : Loc) :
+          l ∈ (loadFiles w cfg roots).1.visited ↔ Spec.Reach (effWorld cfg.raising w) cfg.allowInclude roots l
+
+  The loader pushes a folder entry's bare name and resolves it like any specification, so an entry called
+  `file:x.csv` (or `\x.csv`, or `<protocol>:x.csv`) is not read — another location is.  Proved instead: the
+  statement for every world whose folder entries resolve to themselves (`Spec.entriesFaithful`, decidable). -/
+
+theorem lookup_mem (nodes : List (Loc × Node)) (l : Loc) (n : Node) (h : nodes.lookup l = some n) :
+    (l, n) ∈ nodes := by
+  induction nodes with
+  | nil => simp at h
+  | cons p rest ih =>
+    obtain ⟨k, m⟩ := p
+    rw [List.lookup_cons] at h
+    by_cases e : l = k
+    · subst e; simp at h; subst h; simp
+    · have : (l == k) = false := by simpa using e
+      simp only [this] at h
+      exact List.mem_cons_of_mem _ (ih h)
+
+theorem faithful_entry (w : World) (hf : Spec.entriesFaithful w = true) (l : Loc) (ch : List (Str × Bool))
+    (name : Str) (hn : lookupNode w l = some (.folder ch)) (hm : (name, true) ∈ ch) :
+    Spec.target w name (some l) = w.childLoc l name := by
+  have hmem := lookup_mem w.nodes l _ hn
+  unfold Spec.entriesFaithful at hf
+  rw [List.all_eq_true] at hf
+  have h1 := hf _ hmem
+  simp only [List.all_eq_true] at h1
+  have h2 := h1 _ hm
+  simpa using h2
+
+theorem reach_iff (w : World) (allow : Bool) (roots : List Str) (hf : Spec.entriesFaithful w = true) (l : Loc) :
+    Spec.Reach w allow roots l ↔ Spec.ReachSpec w allow roots l := by
+  constructor
+  · intro h
+    induction h with
+    | root hs ht => exact .root hs ht
+    | entry _ hn hm hc ih =>
+      refine .step ih hn ?_ ((faithful_entry w hf _ _ _ hn hm).trans hc)
+      simp only [Spec.pushSpecs, List.mem_map, List.mem_filter]
+      exact ⟨_, ⟨hm, rfl⟩, rfl⟩
+    | directive _ hn hs ht ih => exact .step ih hn hs ht
+  · intro h
+    induction h with
+    | root hs ht => exact .root hs ht
+    | @step l0 node s l' _ hn hs ht ih =>
+      cases node with
+      | unreadable => simp [Spec.pushSpecs] at hs
+      | file sheets => exact .directive ih hn hs ht
+      | folder ch =>
+        simp only [Spec.pushSpecs, List.mem_map, List.mem_filter] at hs
+        obtain ⟨c, ⟨hc, hm⟩, rfl⟩ := hs
+        have hc' : (c.1, true) ∈ ch := by
+          have : c = (c.1, true) := by rw [← hm]
+          rw [← this]; exact hc
+        exact .entry ih hn hc' ((faithful_entry w hf _ _ _ hn hc').symm.trans ht)
+
+theorem entriesFaithful_effWorld (raising : Bool) (w : World) (hf : Spec.entriesFaithful w = true) :
+    Spec.entriesFaithful (effWorld raising w) = true := by
+  unfold Spec.entriesFaithful at hf ⊢
+  simp only [effWorld, List.all_map]
+  rw [List.all_eq_true] at hf ⊢
+  intro p hp
+  have := hf p hp
+  cases hp2 : p.2 with
+  | folder ch => simpa [hp2, effNode, Function.comp_def, Spec.target, handlerFor] using this
+  | file sheets => simp [Function.comp_def, hp2, effNode]
+  | unreadable => simp [Function.comp_def, hp2, effNode]
+
+/-- **reads_sound_partial**: in a world whose folder entries resolve to themselves, nothing outside the set
+    reachable through folder name matching and include directives is ever read -/
+theorem reads_sound_partial (w : World) (cfg : Cfg) (roots : List Str) (hf : Spec.entriesFaithful w = true) :
+    ∀ l ∈ (loadFiles w cfg roots).1.visited, Spec.Reach (effWorld cfg.raising w) cfg.allowInclude roots l :=
+  fun l hl => (reach_iff _ _ _ (entriesFaithful_effWorld _ w hf) l).2 (reads_sound_spec w cfg roots l hl)
+
+/-- **reads_reachable_partial**: in a world whose folder entries resolve to themselves, a load that runs to
+    completion has read exactly the locations reachable from the roots through folder name matching and include
+    directives.  (Missing for full strength: the worlds excluded by `entriesFaithful` — known finding F4.) -/
+theorem reads_reachable_partial (w : World) (cfg : Cfg) (roots : List Str) (hf : Spec.entriesFaithful w = true)
+    (hd : (loadFiles w cfg roots).2 = .done) (l : Loc) :
+    l ∈ (loadFiles w cfg roots).1.visited ↔ Spec.Reach (effWorld cfg.raising w) cfg.allowInclude roots l :=
+  (reads_reachable_spec w cfg roots hd l).trans (reach_iff _ _ _ (entriesFaithful_effWorld _ w hf) l).symm
 
 /-! ## 8. Repeated arrivals are reported, once each, naming the location -/
 
@@ -1270,6 +1377,21 @@ theorem foldl_binding (add : List (Str × Nat)) (k : Str) (v : Nat) (init : Opti
     · simp only [List.foldl_cons]
       exact ih _ hnd.2 hm
 
+theorem dictSet_head (k0 : Str) (v0 : Nat) (d : List (Str × Nat)) (k : Str) (v : Nat) :
+    ∃ v' rest, dictSet ((k0, v0) :: d) k v = (k0, v') :: rest := by
+  by_cases h : k0 = k
+  · exact ⟨v, d, by simp [dictSet, h]⟩
+  · exact ⟨v0, dictSet d k v, by simp [dictSet, h]⟩
+
+theorem foldl_dictSet_head (add : List (Str × Nat)) (k0 : Str) (v0 : Nat) (d : List (Str × Nat)) :
+    ∃ v' rest, add.foldl (fun d kv => dictSet d kv.1 kv.2) ((k0, v0) :: d) = (k0, v') :: rest := by
+  induction add generalizing v0 d with
+  | nil => exact ⟨v0, d, rfl⟩
+  | cons kv rest ih =>
+    obtain ⟨v', r', e⟩ := dictSet_head k0 v0 d kv.1 kv.2
+    simp only [List.foldl_cons, e]
+    exact ih v' r'
+
 /-- **protocol_dispatch, "file" overridden**: when the caller's dict itself registers a loader under "file"
     (`{"file": file_loader, **additional}` keeps the key's first position and takes the caller's value), a
     specification that carries `file:` — or no registered prefix at all — goes to the caller's loader, never
@@ -1277,16 +1399,27 @@ theorem foldl_binding (add : List (Str × Nat)) (k : Str) (v : Nat) (init : Opti
 theorem protocol_dispatch_file_override (w : World) (spec : Str) (add : List (Str × Nat)) (h : Nat)
     (hadd : w.protocols = some add) (hnd : (add.map (·.1)).Nodup) (hfile : ("file".toList, h) ∈ add) :
     dictGet (handlersOf add) "file".toList = some h ∧
+    (Spec.Carries spec "file".toList → handlerFor w spec = h) ∧
     ((∀ q ∈ handlersOf add, ¬ Spec.Carries spec q.1) → handlerFor w spec = h) := by
   have hget : dictGet (handlersOf add) "file".toList = some h := by
     unfold handlersOf
     rw [dictGet_foldl]
     exact foldl_binding add _ h _ hnd hfile
-  refine ⟨hget, ?_⟩
-  intro hnone
-  simp only [handlerFor, hadd]
-  rw [dispatch_no_match _ _ hnone, hget]
-  rfl
+  refine ⟨hget, ?_, ?_⟩
+  · intro hf
+    obtain ⟨v', rest, e⟩ := foldl_dictSet_head add Gen.fileProtocolKey 0 []
+    have e' : handlersOf add = ("file".toList, v') :: rest := by
+      unfold handlersOf; rw [e, protocol_keys_pinned.1]
+    have hv : v' = h := by
+      rw [e'] at hget
+      simpa [dictGet] using hget
+    simp only [handlerFor, hadd]
+    rw [e', hv]
+    exact dispatch_first_match _ [] rest _ h spec rfl hf (by simp)
+  · intro hnone
+    simp only [handlerFor, hadd]
+    rw [dispatch_no_match _ _ hnone, hget]
+    rfl
 
 /-! ## 10. Non-vacuity: a folder root, a diamond and a three-file include cycle -/
 
@@ -1358,6 +1491,37 @@ example : (loadFiles worldBad collecting ["a.csv".toList]).2 = .done ∧
     (loadFiles worldBad raising ["a.csv".toList]).2 = .raised .inputError ∧
     (loadFiles worldBad raising ["a.csv".toList]).1.out.map (·.blk.name) = ["ta".toList] ∧
     (loadFiles worldBad raising ["a.csv".toList]).1.visited = [1] := by decide
+
+/-- known finding F4, the negation witness of the full-strength `reads_reachable`: the folder `/` lists
+    `file:b.csv` and `b.csv`; the loader re-reads the first name as a specification, strips `file:` and arrives
+    at `b.csv` a second time — `file:b.csv` (location 5) is reachable through folder name matching and is never
+    read, and the load completes (one spurious "included multiple times" error) -/
+def worldF4 : World where
+  nodes := [(0, .folder [("file:b.csv".toList, true), ("b.csv".toList, true)]),
+            (4, .file [⟨none, true, [tbl 0 "tb"]⟩]), (5, .file [⟨none, true, [tbl 0 "tf"]⟩])]
+  protocols := none
+  resolve := fun _ s _ =>
+    if s = "/".toList then some 0
+    else if s = "b.csv".toList ∨ s = "file:b.csv".toList then some 4 else none
+  childLoc := fun l n => if l = 0 ∧ n = "b.csv".toList then some 4
+    else if l = 0 ∧ n = "file:b.csv".toList then some 5 else none
+
+theorem reads_reachable_fails :
+    (loadFiles worldF4 collecting ["/".toList]).2 = .done ∧
+    Spec.Reach (effWorld false worldF4) true ["/".toList] 5 ∧
+    5 ∉ (loadFiles worldF4 collecting ["/".toList]).1.visited ∧
+    (loadFiles worldF4 collecting ["/".toList]).1.visited = [0, 4] ∧
+    Spec.dupsNaming 4 (loadFiles worldF4 collecting ["/".toList]).1.issues = 1 ∧
+    Spec.entriesFaithful worldF4 = false := by
+  refine ⟨by decide, ?_, by decide, by decide, by decide, by decide⟩
+  exact .entry (l := 0) (ch := [("file:b.csv".toList, true), ("b.csv".toList, true)]) (name := "file:b.csv".toList)
+    (.root (s := "/".toList) (by decide) (by decide)) (by decide) (by decide) (by decide)
+
+/-- `reads_reachable_partial` is not vacuous: the example world's folder entries resolve to themselves -/
+def worldWithEntries : World :=
+  { world with childLoc := fun l n => if l = 0 ∧ n = "a.csv".toList then some 1 else none }
+
+example : Spec.entriesFaithful worldWithEntries = true := by decide
 
 /-- `protocol_dispatch_file_override` has instances: the caller's loader 7 under "file", 1 under "mem" -/
 example : dispatch (handlersOf [("mem".toList, 1), ("file".toList, 7)]) "a.csv".toList = 7 ∧
